@@ -57,6 +57,9 @@ class G:
         self.live_net = {}          # (fd, dir) -> id
         self.scripted = set()
         self.imm_ids, self.tm_ids = [], []      # every id ever registered as immediate / timer (also from scripts)
+        self.script_of = {}         # id -> (rc, ops) of the latest `script` line
+        self.spin_case = False      # some calls of this case are events_spin (decided from a PRNG fork: the other cases stay what they were)
+        self.rs = None
 
     # ---- ids and scripts
     def fresh(self):
@@ -127,7 +130,61 @@ class G:
         elif r.chance(1, 14):
             rc = r.choice([1, -1, 42, 2147483647, -2147483648])
         ops = self.script_ops(i, depth)
+        self.script_of[i] = (rc, ops)
         self.ops.append("script %d %d %s" % (i, rc, ";".join(ops) or "-"))
+
+    def rescript(self, i, rc=None, extra=()):
+        """a new script for callback `i`: the old one with `extra` ops inserted anywhere and (if given) another status"""
+        rs = self.rs
+        rc0, ops0 = self.script_of[i]
+        ops1 = list(ops0)
+        for x in extra:
+            ops1.insert(rs.below(len(ops1) + 1), x)
+        self.script_of[i] = (rc0 if rc is None else rc, ops1)
+        self.ops.append("script %d %d %s" % (i, self.script_of[i][0], ";".join(ops1) or "-"))
+
+    def spin_call(self):
+        """events_spin(&done) instead of events_run(): `done` set by one / two / every callback (so: by the k-th that runs, of
+        any kind), by a callback that also returns non-zero or also requests an interrupt, set before the call, or never --
+        then the call ends with a non-zero status, an interrupt request (callback, signal during poll) or the default answer
+        to an infinite wait with nothing ready (a signal whose handler calls events_interrupt()).  A plain events_run follows:
+        it must behave as a fresh call (the interrupt flag was reset)."""
+        rs = self.rs
+        ids = sorted(self.script_of)
+        kind = rs.weighted([("done-cb", 32), ("done-nonzero", 10), ("done-int", 10), ("before", 12), ("nonzero", 10),
+                            ("interrupt", 10), ("sig", 8), ("plain", 8)])
+        some = []
+        if ids:
+            pool = list(ids)
+            for _ in range(min(len(pool), rs.weighted([(1, 40), (2, 30), (len(pool), 30)]))):
+                some.append(pool.pop(rs.below(len(pool))))
+        nz = rs.choice([1, -1, 7, 2147483647, -2147483648])
+        if kind == "done-cb":
+            for i in some:
+                self.rescript(i, extra=["done"])
+        elif kind == "done-nonzero":
+            for k, i in enumerate(some):
+                self.rescript(i, rc=nz if k == 0 else None, extra=["done"])
+        elif kind == "done-int":
+            for i in some:
+                self.rescript(i, extra=["done", "int"])
+        elif kind == "before":
+            self.ops.append("setdone")
+        elif kind == "nonzero":
+            for i in some[:2]:
+                self.rescript(i, rc=nz)
+        elif kind == "interrupt":
+            for i in some[:2]:
+                self.rescript(i, extra=["int"])
+        elif kind == "sig" and SIGINTR:
+            self.sig_answer(front=True)
+        self.ops.append("spin")
+        if rs.chance(3, 4):
+            if rs.chance(1, 2):
+                self.top_reg()
+            if rs.chance(1, 2):
+                self.poll_answer()
+            self.ops.append("run")
 
     def prio(self):
         r = self.r
@@ -141,7 +198,12 @@ class G:
             return far_left(r) if r.chance(5, 6) else r.choice(BEYOND)
         if r.chance(1, 3):
             return r.choice([0, 1000, 1000, 2000])            # ties
-        return r.choice(USECS)
+        v = r.choice(USECS)
+        if self.spin_case and v > 2147483000001:
+            # events_spin waits for a timer however far away it is, 2147483 s per turn of its loop: at most two turns per timer
+            # (2000 turns for 4300000000 s would be a trace line of megabytes; the model's `spinFuel` is 1000 turns)
+            v = 2147483000001
+        return v
 
     def pick_id(self):
         r = self.r
@@ -340,6 +402,8 @@ def gen_case(r, profile, tier):
         for i in range(len(g.fdpool) - 1, 0, -1):
             j = r.below(i + 1)
             g.fdpool[i], g.fdpool[j] = g.fdpool[j], g.fdpool[i]
+    g.rs = r.fork("spin")
+    g.spin_case = profile != "far" and g.rs.chance(1, 4)
     nreg = r.range(1, 6) if nfd <= 4 else r.range(nfd // 2, nfd + 10)
     if profile == "imm":
         nreg = r.range(4, 70)
@@ -355,7 +419,10 @@ def gen_case(r, profile, tier):
             g.sig_answer(front=True)
         for _ in range(r.weighted([(0, 30), (1, 30), (2, 25), (4, 15)])):
             g.poll_answer()
-        g.ops.append("run")
+        if g.spin_case and g.rs.chance(2, 3):
+            g.spin_call()           # a sixth of the calls over all cases
+        else:
+            g.ops.append("run")
         for _ in range(r.weighted([(0, 40), (1, 30), (3, 20), (6, 10)])):
             if r.chance(1, 2):
                 g.top_misc()
@@ -456,7 +523,7 @@ def gen_events(rng, tier, mult):
 
 
 def nontrivial(case):
-    return (sum(1 for o in case if o == "run") >= 2 and
+    return (sum(1 for o in case if o in ("run", "spin")) >= 2 and
             sum(1 for o in case if o.startswith(("reg_", "cancel_", "reset_"))) >= 2)
 
 
@@ -464,14 +531,37 @@ def classify(case, out):
     tags = []
     nrun = ncb = 0
     kind_of = {}        # registration id -> "I" / "S" / "T", from the registrations seen to succeed (top level and callbacks)
+    done_set = False    # the variable events_spin watches is non-zero
+    prev_spin = False
     for o, line in zip(case, out):
         l1 = line.split(" | ")[0]
         toks = l1.split()
+        if o == "spin":
+            tags.append("spin")
+            if done_set:
+                tags.append("spin:done-before")
+            if "done:ok" in toks:
+                tags.append("spin:done-in-callback")
+            if any(t.startswith("end:") and t != "end:0" for t in toks):
+                tags.append("spin:nonzero")
+            if "int:ok" in toks or any(t.startswith("poll:") and t.endswith((":intr", ":stuck")) for t in toks):
+                tags.append("spin:interrupt")
+            if "done:ok" in toks and "int:ok" in toks:
+                tags.append("spin:done+interrupt")
+            if sum(1 for t in toks if t.startswith("poll:") and not t.startswith(("poll:0:", "poll:-1:")) and t.endswith(":ok")) >= 2:
+                tags.append("spin:turns>=2")
+            done_set = False
+        elif "done:ok" in toks:
+            done_set = True
+        if o == "run" and prev_spin:
+            tags.append("spin:then-run")
+        if o in ("run", "spin"):
+            prev_spin = o == "spin"
         for t in toks:
             f = t.split(":")
             if f[0] in ("ri", "rn", "rt") and f[-1] == "ok":
                 kind_of[f[1]] = {"ri": "I", "rn": "S", "rt": "T"}[f[0]]
-        if o != "run":
+        if o not in ("run", "spin"):
             if o.startswith(("reg_", "cancel_", "reset_")):
                 tags.append("top:" + toks[0].rsplit(":", 1)[-1])
             continue
@@ -574,7 +664,9 @@ def component(monitor):
              "during the poll -- first answer of a call / after EINTRs / after an answered poll / twice, with infinite, finite "
              "(also the far timers) and zero timeouts, followed by EINTRs, ready descriptors and clock advances that expire "
              "timers --, clock advance, level-triggered repeats) and "
-             "events_run calls; profiles mixed/net/imm/tm/status/far, plus one `tst` case per 12 of these: a socket registration and >= 2 timers "
+             "events_run calls -- in a quarter of the cases (not profile far) two thirds of the calls are events_spin(&done) instead: done set by the k-th "
+             "callback of any kind / by a callback that also returns non-zero / that also requests an interrupt / before the call / never "
+             "(the call then ends with a status, an interrupt request, a signal during poll), followed by a plain events_run; profiles mixed/net/imm/tm/status/far, plus one `tst` case per 12 of these: a socket registration and >= 2 timers "
              "expired at the same wake-up, a descriptor reported ready by the zero-timeout poll after the first timer's callback (T S T); non-trivial = >= 2 runs and >= 2 register/cancel/reset calls; "
              "L1 = the %s monitor over the implementation's trace, L2 = equality with the model's trace and white-box state" % monitor.upper(),
         classify=classify, monitor_args=["eventsmon", monitor], ldflags=["-Wl,--wrap=poll"],
